@@ -139,6 +139,7 @@ def run(P, R, tier, cfg):
         _handler(P, R, fn, own, opp)
     _window(P, R)
     _rescan(P, R)
+    _eviction_predicate(P, R)
 
 
 def _handler(P, R, fn, own, opp):
@@ -304,3 +305,51 @@ def _rescan(P, R):
         R.hold("e", "eviction happens after the re-scan", fn=fn)
     elif ev:
         R.violate("e", "evict-before-rescan", "update_watermark evicts before (or during) the re-scan: pairs still inside the window can be lost", fn, ev[0].line)
+
+
+def _eviction_predicate(P, R):
+    """f. An event may be evicted only when no on-time arrival (timestamp >= watermark) can still pair with it:
+    evict iff watermark - timestamp - window > 0 (strict, the complement of the window predicate |l - r| <= window at the
+    watermark), identically on both buffers. The comparison is brought to a linear canonical form, so `wm - ts > w`,
+    `ts < wm - w` and `ts + w < wm` are the same predicate and `ts <= wm - w` is not."""
+    f = P.fn(SJ + "::evict_expired_events")
+    if f is None:
+        R.undecide("f", "evict_expired_events", "function not found")
+        return
+    seen = {}
+    for lp in f.loops():
+        pops = [c for c in f.calls() if c.bb in lp["body"] and c.name.endswith("VecDeque::pop_front")]
+        if not pops:
+            continue
+        inner = min([l2 for l2 in f.loops() if pops[0].bb in l2["body"]], key=lambda l2: len(l2["body"]))
+        if inner["header"] != lp["header"]:
+            continue
+        recv = fmt_sym(f.sym_operand(pops[0].args[0]), maxdepth=10)
+        side = "left" if "left_buffer" in recv else "right" if "right_buffer" in recv else None
+        conds = [g for g in A.guards_of(f, pops[0].bb) if isinstance(g["polarity"], bool) and g["sw"] in lp["body"]]
+        if side is None or len(conds) != 1:
+            R.undecide("f", "evict:%s" % (side or recv[:40]), "eviction loop not understood (%d boolean guards on pop_front)" % len(conds), f)
+            continue
+        g = conds[0]
+        cond = g["cond"] if g["polarity"] else ("un", "Not", g["cond"])
+        lc = A.canon_linear_cmp(cond)
+        if lc is None:
+            R.undecide("f", "evict:%s" % side, "eviction condition `%s` is not a comparison" % fmt_sym(g["cond"], maxdepth=6), f)
+            continue
+        rel, co, const, flags = lc
+        roles = {}
+        for k, v in co.items():
+            role = "W" if "watermark" in k else "T" if "metadata.timestamp" in k else "D" if ("window" in k or "duration" in k) else k[:30]
+            roles[role] = roles.get(role, 0) + v
+        seen[side] = (rel, tuple(sorted(roles.items())), const)
+        want = ((">", (("D", -1), ("T", -1), ("W", 1)), 0))
+        if seen[side] == want:
+            R.hold("f", "%s buffer: evict iff watermark - timestamp - window > 0" % side, "flags=%s" % sorted(flags), f, f.term(g["sw"])[0])
+        else:
+            R.violate("f", "eviction-predicate:%s" % side,
+                      "the %s buffer evicts when %s %s 0 (constant %+d); required: watermark - timestamp - window > 0. An event exactly one window behind the watermark can still pair with an on-time arrival and must be kept" % (
+                          side, " ".join("%+d*%s" % (v, r) for r, v in sorted(roles.items())), rel, const), f, f.term(g["sw"])[0])
+    if set(seen) != {"left", "right"}:
+        R.undecide("f", "evict:sides", "eviction loops found for %s only" % sorted(seen), f)
+    elif seen["left"] != seen["right"]:
+        R.violate("f", "eviction-asymmetric", "left and right buffers are evicted under different predicates (%s vs %s): the join result depends on which side arrived first" % (seen["left"], seen["right"]), f)
